@@ -26,3 +26,24 @@ def _bench(tier):
 
 
 CORR["bench"] = _bench
+
+
+def _wrap_agent(modname, label):
+    """Correspondence modules written as stand-alone scripts: run(tier, seed, coq_dir) -> (list of dict, stats)."""
+    def f(tier):
+        import importlib
+        import json
+        from harness.common import Failure, seed
+        from harness import coqbuild
+        mod = importlib.import_module(modname)
+        fails, stats = mod.run(tier, seed=seed(), coq_dir=coqbuild.COQ)
+        out = []
+        for d in fails[:3]:
+            kind = "input" if "oracle" in str(d.get("kind", "")) else "correspondence"
+            out.append(Failure(kind, f"{label}: {d.get('kind')}: " + json.dumps({k: v for k, v in d.items() if k != 'kind'}, default=str)[:900],
+                               replay=dict(module=modname, failure=json.loads(json.dumps(d, default=str))), signature=f"{label} {d.get('kind')}"))
+        return out, stats
+    return f
+
+
+CORR["bfgs"] = _wrap_agent("harness.corr.bfgs", "BFGS matrix model vs update_lbfgs_matrices")
